@@ -7,6 +7,7 @@ from typing_extensions import Self
 from ..linalg import total_variance
 from ..preprocessing import PCA
 from ..utils.data_types import DataArray, DataObject
+from ..utils.sanity_checks import sanity_check_n_modes
 from ..utils.xarray_utils import argsort_dask
 from .base_model_single_set import BaseModelSingleSet
 
@@ -134,6 +135,14 @@ class POP(BaseModelSingleSet):
             **kwargs,
         )
         self.attrs.update({"model": "Principal Oscillation Pattern analysis"})
+
+        # POP does not go through the Decomposer, which validates these arguments for the other models
+        sanity_check_n_modes(n_modes)
+        if solver not in ["auto", "full", "randomized"]:
+            raise ValueError(
+                f"Unrecognized solver '{solver}'. "
+                "Valid options are 'auto', 'full', and 'randomized'."
+            )
 
         self.pca = PCA(
             use_pca=use_pca,
